@@ -243,6 +243,7 @@ func c10Run(w *W) {
 		ss := syms(append(append([]string{}, texts...), "\n")...)
 		c10Sentence(w, render(ss).src)
 		c10Sentence(w, renderTight(ss).src)
+		c10Invalid(w, render(ss).src, true) // the same sentence under a transient fault at every position
 	})
 	for _, src := range []string{"a \\\nb\n", "a 'q\nq' \"d\n$v\"\n", "cat <<E <<F <<-G\nx\nE\ny\nF\n\tz\n\tG\n", "a $(b <<E\nx\nE\n) `c d`\n", "a &&\n\n# c\nb\n", "case x in a) ;; esac"} {
 		if w.Mine() {
@@ -255,7 +256,7 @@ func init() {
 	register(&check{
 		id:    "C10",
 		level: "fault_enumeration",
-		rule: "every accepted sentence among all strings ≤ 3 (quick) / 4 (thorough) over Σcore+7 and the derivation sets D0, D1, word menu (thorough: D2) in canonical and tight layout × every rune index k ∈ [0, len] at which the reader starts failing × {io.RuneScanner, io.Reader, io.RuneScanner with an error that wraps io.EOF}: the complete set of single-fault positions; additionally every sentence of the string space that the parser REJECTS and every accepted one under a transient (one-shot) fault at every k: the call must return, with a non-nil error that is the read error or a parser.Error; " +
+		rule: "every accepted sentence among all strings ≤ 3 (quick) / 4 (thorough) over Σcore+7 and the derivation sets D0, D1, word menu (thorough: D2) in canonical and tight layout × every rune index k ∈ [0, len] at which the reader starts failing × {io.RuneScanner, io.Reader, io.RuneScanner with an error that wraps io.EOF}: the complete set of single-fault positions; additionally every sentence of the string space that the parser REJECTS and every accepted one (of the string space and of the derivation sets) under a transient (one-shot) fault at every k: the call must return, with a non-nil error that is the read error or a parser.Error; " +
 			"non-trivial = every base sentence (each is explored at all of its positions)",
 		assume: []string{"a fault is 'delivered' when the RuneScanner wrapper returned the sentinel; for io.Reader (wrapped in bufio by go.sh) delivery to the parser is not observable, so the rule is: nil error only with the fault-free result and only if k is not inside the consumed text, otherwise errors.Is(err, sentinel)"},
 		run:    c10Run,
